@@ -17,6 +17,7 @@ EXTENDS Integers, Sequences, FiniteSets, TLC, Json
 
 CONSTANTS Shapes,      \* set of numbers 100*r + 10*n + f: n items; f = 1: all pointers free, f = 0: Last = First and no Prev on items,
                        \* f = 2: Last = First, f = 3: no Prev;
+                       \* f = 4 (n >= 3): two sibling lists that may share items, with free /Prev chains - see Family4;
                        \* r = 1: the root dictionary also carries a title and a destination (it reads like an item)
           RootFirsts,  \* values for the root's First (by symmetry 0 and 1 suffice)
           Emit
@@ -39,7 +40,27 @@ HasTitle(i) == i # 0 \/ rt
 Init == /\ \E s \in Shapes : n = (s \div 10) % 10 /\ fm = s % 10 /\ rt = (s \div 100 = 1)
         /\ ptr = <<>> /\ stack = <<>> /\ visited = {} /\ out = <<>> /\ status = "build" /\ steps = 0
 
+(* Family 4: item 2 heads the top level list (root.First = 2, root.Last = 1) and may be followed by item 1; item 1 is the only  *)
+(* parent: its kids list starts at any other item - also one of the top level list, so that an item sits in two sibling lists - *)
+(* and names item n as its Last.  Every item i >= 2 continues (Next) with nothing, itself, the next higher item or an item of   *)
+(* the top level list, so that the lists end, loop onto themselves, form rings or rho shapes (a tail leading into a cycle).     *)
+(* Every /Prev is free over the items: the chain walked backwards from a list's Last is absent, a self loop, a ring through     *)
+(* the last item, or a rho whose cycle does not contain the item it started from.                                              *)
+Items == 1..n
+Family4(k) ==
+  IF k = 1 THEN {2}
+  ELSE IF k = 2 THEN {1}
+  ELSE LET i == ((k - 3) \div 4) + 1
+           f == ((k - 3) % 4) + 1
+       IN IF f = 4 THEN {None} \cup Items
+          ELSE IF i = 1 THEN (IF f = 1 THEN {None} \cup (Items \ {1})
+                              ELSE IF f = 2 THEN (IF ptr[k - 1] = None THEN {None} ELSE {n})
+                              ELSE {None})
+          ELSE IF f = 3 THEN {None, i, IF i = 2 THEN 1 ELSE 2, IF i < n THEN i + 1 ELSE i}
+          ELSE {None}
+
 Choices(k) ==
+  IF fm = 4 THEN Family4(k) ELSE
   IF k = 1 THEN (IF n >= 2 /\ rt THEN RootFirsts \ {0} ELSE RootFirsts)   \* a titled root that is its own first item is covered with n = 1
   ELSE IF k = 2 THEN T
   ELSE LET f == ((k - 3) % 4) + 1 IN
